@@ -265,6 +265,8 @@ def check(ctx: Ctx) -> None:
     from ..dsf import auto_memo_check
     ctx.rule('C02.e', 'no auto-discovered lazily filled cache of the classes in the anchored modules can be stale at the exit of a public method (dependencies = what the fill expression reads, incl. mutating calls on held sub-objects)', floor=2)
     auto_memo_check(ctx, 'C02.e', [OF])
+    from ..commit import check_family
+    check_family(ctx, 'C02.g', ['OFDM', 'OfdmOneTapEqualizer'], floor=1)
 
 
 def thorough(ctx: Ctx) -> None:
